@@ -88,6 +88,9 @@ func (u *Universe) verifyContract(c *Contract, variant map[string]string) (res *
 	for k, v := range specConstsNow {
 		name += fmt.Sprintf("[%s=%d]", k, v)
 	}
+	if c.Variant != "" {
+		name += "#" + c.Variant
+	}
 	res = &FuncResult{Name: name, Contract: c}
 	defer func() {
 		if r := recover(); r != nil {
@@ -190,6 +193,24 @@ func (u *Universe) verifyContract(c *Contract, variant map[string]string) (res *
 				}
 			}
 		}
+	}
+	// field-congruence mode: the modulus is read as 0 and arithmetic is over the rationals
+	if c.FieldMode != nil {
+		x.entry = st.fork()
+		fe := x.entryEnv(st)
+		fe.where = c.FieldMode.Line
+		pv := fe.expr(c.FieldMode.Expr)
+		var pt *Term
+		switch p := pv.(type) {
+		case PtrV:
+			pt = navigate(x.memCell(st, p.Alloc), p.Path).(Scalar).T
+		case Scalar:
+			pt = p.T
+		default:
+			unsupported("%s: fieldmode expression is %T", c.FieldMode.Line, pv)
+		}
+		x.fieldModulus = pt
+		st.assume(Eq(pt, IntC(0)))
 	}
 	// preconditions
 	x.entry = st.fork()
